@@ -24,3 +24,4 @@ def run(ctx):
     immut.im11(ctx)
     immut.im13(ctx)     # nobody writes into the cache of a URL it did not create (shared, memoised objects)
     immut.im15(ctx)     # no Python-level iteration over a cache dict that other threads fill concurrently
+    immut.im18(ctx)     # a URL's cache only grows: no entry is removed while other threads may be between a fill and its use
